@@ -234,6 +234,20 @@ def run(F, R, tier):
         if not r5.anchor(F.hir(fn), fn):
             continue
         _one_way_sym(F, r5, fn)
+    # set_credential_status(credential, index, value): every accepting path applied set_entry(index, value) ✓ — both values, so that
+    # a suspension can be lifted through it and the purpose check of set_entry is the only gate
+    scs = CR + "::StatusList2021Credential::set_credential_status"
+    if r5.anchor(F.hir(scs), scs):
+        tabs = SR.Table(F, scs, opaque=r"StatusList2021Credential::set_entry$|StatusList2021Entry::new$", rule=r5)
+        IDX = SR.param(sym.param_name(F, scs, 2, "index"))
+        VAL = SR.param(sym.param_name(F, scs, 3, "revoked_or_suspended"))
+
+        def applied(q):
+            return any(q.succeeded(e) is True and len(e.args) == 3 and SR.pure(e.args[0], SR.SELF) and SR.pure(e.args[1], IDX) and SR.pure(e.args[2], VAL)
+                       for e in q.calls(r"StatusList2021Credential::set_entry$"))
+        SR.require_on_success(r5, tabs, "set_entry(index, value) ✓", applied, key=(scs, "missing-before-success", "set_entry"),
+                              what="self.set_entry(index, revoked_or_suspended)? succeeded with both arguments passed on unchanged")
+        r5.site("set_credential_status: %d accepting / %d rejecting path(s)" % (len(tabs.ok()), len(tabs.err())))
     # who may call StatusList2021::set / write encoded_list
     allowed_set = {CR + "::StatusList2021Credential::set_entry", CR + "::MutStatusList::set_entry"}
     for (p, bi, t) in F.callers(SL + "::set"):
@@ -266,7 +280,7 @@ def run(F, R, tier):
     if r5.anchor(msl, "MutStatusList"):
         for f in msl["variants"][0]["fields"]:
             r5.require(f["vis"] != "pub", ("MutStatusList", f["name"], "pub"), "field MutStatusList.%s is public: the purpose check can be bypassed" % f["name"])
-    r5.floor(7)
+    r5.floor(8)
 
     # ---------------------------------------------------------------- R6 status evaluation (T4)
     r6 = R.rule("C12-R6", "T4", "entry(): (Revocation,set)->Revoked, (Suspension,set)->Suspended, else Valid")
@@ -471,3 +485,50 @@ def _check_status(F, R):
         r7.require(any(x[2] == "Valid" and x[3] == "Ok" for x in rows), (fn, "Valid"), "CredentialStatus::Valid does not map to Ok")
         r7.require(not any(x[2] in ("Revoked", "Suspended") and x[3] == "Ok" for x in rows), (fn, "Revoked"), "a Revoked/Suspended entry is accepted")
     r7.floor(5)
+
+    # ---------------------------------------------------------------- R8 allocation geometry of `new` (T7)
+    # `new(n)` is evaluated with n symbolic; its paths split on comparisons of n with constants and on n % 8.  For every n of a
+    # domain covering all residues mod 8 below, at and above the minimum size, the one path whose decisions hold at n is looked up:
+    # n < 131072 (the specification's minimum) → Err; otherwise Ok with exactly ceil(n / 8) zero bytes (so that len() ≥ n and the
+    # list has no byte that no requested entry lives in).
+    r8 = R.rule("C12-R8", "T7", "StatusList2021::new(n): n < 131072 → Err; otherwise ceil(n/8) zero bytes (every requested entry exists, no surplus byte)")
+    nfn = SL + "::new"
+    if r8.anchor(F.hir(nfn), nfn):
+        tabn = SR.Table(F, nfn, rule=r8)
+        N = SR.param(sym.param_name(F, nfn, 0, "num_entries"))
+        paths = [q for q in tabn.paths if q.complete]
+        MIN = 131072
+        dom = list(range(0, 41)) + list(range(MIN - 17, MIN + 41)) + list(range((1 << 20) - 9, (1 << 20) + 10)) + list(range(10 ** 6, 10 ** 6 + 9))
+        bad = 0
+        for n in dom:
+            qs, unk = SR.path_at(paths, {N: n})
+            if len(qs) != 1:
+                bad += 1
+                r8.fail((nfn, "not-evaluable"), "StatusList2021::new(%d): %d evaluated path(s) apply%s" % (n, len(qs), ("; undecidable: " + sym.fmt_atom(unk[0])) if unk else ""))
+                break
+            q = qs[0]
+            ok = SR.is_success(q.ret) and not SR.is_failure(q.ret)
+            if n < MIN:
+                if not r8.require(not ok, (nfn, "minimum"), "StatusList2021::new(%d) succeeds: below the minimum list size of 131072 entries" % n):
+                    bad += 1
+                    break
+                continue
+            if not r8.require(ok, (nfn, "minimum"), "StatusList2021::new(%d) is rejected although the size is permitted" % n):
+                bad += 1
+                break
+            allocs = [x for x in sym.subterms(sym.term(q.ret)) if isinstance(x, tuple) and x[:1] == ("call",) and x[1].endswith("vec::from_elem") and len(x[2]) == 2]
+            if not r8.require(len(allocs) == 1, (nfn, "not-evaluable"), "StatusList2021::new: the store is not `vec![0; size]` (allocations found in the result: %d)" % len(allocs)):
+                bad += 1
+                break
+            elem, size = SR.eval_term(allocs[0][2][0], {N: n}), SR.eval_term(allocs[0][2][1], {N: n})
+            if not r8.require(elem == 0 and not isinstance(elem, bool), (nfn, "zeroed"), "StatusList2021::new does not start from an all-zero store (element %s)" % sym.fmt(allocs[0][2][0])):
+                bad += 1
+                break
+            if not r8.require(size is not None and int(size) == (n + 7) // 8, (nfn, "size"),
+                              "StatusList2021::new(%d) allocates %s byte(s) (size = %s), not ceil(n/8) = %d: %s" % (
+                                  n, size, sym.fmt(allocs[0][2][1]), (n + 7) // 8, "the last entries of the requested range do not exist" if size is not None and int(size) < (n + 7) // 8 else "surplus bytes")):
+                bad += 1
+                break
+        r8.site("StatusList2021::new decided at %d sizes (all residues mod 8 around 0, 131072, 2^20, 10^6) over %d path(s): %s" % (len(dom), len(paths), bad == 0))
+    # len() = bytes * 8 is C12-R3
+    r8.floor(1)
